@@ -58,7 +58,11 @@ var bsData = map[string][]byte{
 	"d6": {1, 2, 3, 4, 5, 6, 7, 8, 0xbb, 0xdd, 0xee},
 }
 
-var bsFn = map[string]uint64{"sha2-256": mh.SHA2_256, "sha2-512": mh.SHA2_512, "blake2b-256": mh.BLAKE2B_MIN + 31, "sha3-256": mh.SHA3_256, "identity": mh.IDENTITY}
+var bsFn = map[string]uint64{"sha2-256": mh.SHA2_256, "sha2-512": mh.SHA2_512, "blake2b-256": mh.BLAKE2B_MIN + 31, "sha3-256": mh.SHA3_256, "identity": mh.IDENTITY,
+	"sha2-256/20": mh.SHA2_256, "sha2-512/32": mh.SHA2_512}
+
+// truncated digests (the multihash records the shorter length)
+var bsTrunc = map[string]int{"sha2-256/20": 20, "sha2-512/32": 32}
 var bsCodec = map[string]uint64{"raw": cid.Raw, "dag-pb": cid.DagProtobuf, "dag-cbor": cid.DagCBOR}
 
 func init() { engines["bstore"] = runBstore }
@@ -83,6 +87,9 @@ func runBstore(args []string) error {
 
 func mkCid(c bsCid) (cid.Cid, error) {
 	p := cid.Prefix{Version: uint64(c.V), Codec: bsCodec[c.Codec], MhType: bsFn[c.Fn], MhLength: -1}
+	if n, ok := bsTrunc[c.Fn]; ok {
+		p.MhLength = n // a multihash whose digest is truncated to n bytes
+	}
 	return p.Sum(bsData[c.D])
 }
 
